@@ -46,6 +46,17 @@ CHECKS = {
         design="7 (C08), 4 (R1)",
         technique="deterministic simulation: scripted head latency + cancellation, reference soft-cut interpreter with choice-function oracle",
     ),
+    "C09": dict(
+        text="The same program is executed under R simulated hash orders (6 quick / 16 thorough iteration-order schedules over the "
+             "substitution, domain store and constraint store: exactly what 'a fresh process with a different hash seed' varies, "
+             "except that a failing seed replays) and under a scripted consumer history over one Query (re-runs, interleaved "
+             "iterators, drops, polling after the end). Canonical answer sequences must be identical in all of them; a None must "
+             "stay None; a never-ending but productive program must deliver its first 24 answers within the step budget. One "
+             "genuine defect is a listed known finding with its class excluded from generation: the order of CLP(FD) answers "
+             "depends on propagation order when the program has two or more FD constraints.",
+        design="7 (C09), 1 (N1, N3, N5)",
+        technique="deterministic simulation: differential runs across seeded hash-order schedules and consumer histories, step budget for laziness",
+    ),
     "C11": dict(
         text="Seeded exploration of programs in which several states reach project goals whose bodies read the projected value "
              "non-relationally and are suspended and resumed (scripted leaf latency, yields), driven by a consumer history over one "
